@@ -22,10 +22,11 @@ Correspondence:
 import json, os, re
 import common as C
 import c04_gen as G
+import c04_p4 as P4
 
 ID = "C04"
 PROPS_FILE = "Props/C04.v"
-MODEL_TARGETS = ["Corr/C04_Eval.v"]
+MODEL_TARGETS = ["Corr/C04_Eval.v", "Corr/C04_P4_Eval.v"]
 ALLOWED_AXIOMS = []
 RULE = ("model programs: 3-9 (thorough: up to 14) generic objects over 1-3 packages + main; arity 1-2; constraints any/comparable/"
         "numeric union/~[]E; references carry type expressions of depth <= 2 over own/nest parameters (growth only towards "
@@ -36,12 +37,16 @@ RULE = ("model programs: 3-9 (thorough: up to 14) generic objects over 1-3 packa
 TRUSTED = ["go/types (type checking, inference, Info.Instances/Defs, types.Identical) - the model takes the recorded identifiers as given",
            "model of Collector/InstanceSet/Resolver/isGeneric written by hand (coq/Model/C04_Inst.v), tied by this correspondence",
            "harness/py/c04_gen.py prints the Go source whose ast.Walk identifier order is the model template (checked through the exact list comparison)",
-           "per-instance body translation (compiler/decls.go, functions.go, utils.go typeName/instName) is not modelled; it is covered by the compiled-program comparison with native Go",
+           "per-instance body translation (compiler/decls.go, functions.go) is not modelled; it is covered by the compiled-program comparison with native Go",
+           "phase 4: the spelling of closed types and objects (types.TypeString, symbol.New, the JS variable allocated by funcContext.newVariable) is a table given to the naming model (coq/Model/C04_P4_Name.v); the check verifies on every compiled program that distinct generic objects of a package have distinct variables",
+           "phase 4: typeutil.Hasher is a parameter of the InstanceMap model (coq/Model/C04_P4_Map.v): the refinement theorem holds for every hash function; Go maps im.data[obj][hash] are modelled as an association list",
+           "phase 4: harness/go/repo_overlay/compiler/verifharness/c04p4 + export_c04_p4_verif.go (bucket statistics only); harness/py/c04_p4.py (generators, Python oracles); the build scans packages in ascending import path order (build.Session), which is the seed order given to the model for the emitted-name cases",
            "harness/go/repo_overlay/compiler/verifharness/c04 + compiler/internal/typeparams/export_c04_verif.go (exports propagate/allExhausted)",
            "native Go 1.23 as the reference for run-time behaviour; node 20"]
 ASSUMPTIONS = ["types.Identical on the generated type arguments coincides with structural equality of the model terms",
                "the instantiation is finite (go/types rejects instantiation cycles); theorems are conditional on all_exhausted",
-               "types declared inside generic functions are not used as type arguments or inside composite types (known findings otherwise)"]
+               "types declared inside generic functions are not used as type arguments or inside composite types (known findings otherwise)",
+               "phase 4: vars_distinct (newVariable gives distinct objects of one package distinct JS variables) is a hypothesis of C04_js_ref_injective for trivial instances only; checked on the compiled programs"]
 
 KF_QUAL = "compiler-panic-qualified-generic-explicit-inst-in-generic"
 KF_LOCALARG = "compiler-panic-local-type-of-generic-func-as-type-arg"
@@ -50,6 +55,7 @@ KF_LOCALCOMP = "compiler-panic-composite-of-local-type-in-generic-func"
 
 def prepare(ctx):
     C.ensure_go_harness("c04")
+    C.ensure_go_harness("c04p4")
     C.ensure_gopherjs()
 
 
@@ -264,7 +270,7 @@ def native_outputs(ctx, progs, label):
     return outs, ""
 
 
-def runtime_stream(ctx, progs, label):
+def runtime_stream(ctx, progs, label, results=None):
     nat, err = native_outputs(ctx, progs, label)
     if nat is None and "[timeout after" in err:
         ctx.notes.append("skipped runtime group %s: native build timed out" % label)
@@ -272,7 +278,9 @@ def runtime_stream(ctx, progs, label):
     if nat is None:
         ctx.violation("native-build-failed", "native Go rejected a generated program (generator defect, not a finding)", dict(log=err), concrete=False)
         return
-    dist = dict(programs=len(progs), lines=0, enter_events=0, value_probes=0, distinct_keys=0)
+    dist = dict(programs=len(progs), lines=0, enter_events=0, value_probes=0, distinct_keys=0,
+                js_definitions=0, js_type_strings=0, js_instances_expected=0, js_model_cases=0)
+    jcases, jreps = [], []
 
     def one(n):
         P = progs[n]
@@ -283,12 +291,22 @@ def runtime_stream(ctx, progs, label):
         if rc != 0:
             return n, files, None, log
         rc, out, err2 = C.run_node(os.path.join(d, "out.js"))
+        with open(os.path.join(d, "out.js")) as f:
+            JSDEFS[(label, n)] = "\n".join(m.group(0) for m in P4.JS_DEF.finditer(f.read()))
         return n, files, [l for l in out.split("\n") if l], (err2 if rc != 0 else "")
 
+    JSDEFS = {}
     for n, files, lines, log in C.parallel_map(one, range(len(progs))):
         P = progs[n]
         rep = dict(kind="program", files=files)
         ctx.count(["program", files], nontrivial=True)
+        # ---- phase 4: the names under which the instances are emitted (JS reference, $newType string)
+        res = results[n] if results is not None and n < len(results) else None
+        if (label, n) in JSDEFS and res is not None and not res["error"] and P.order is not None:
+            jc = P4.js_names_case(ctx, P, JSDEFS[(label, n)], res, rep, dist)
+            if jc is not None:
+                jcases.append(jc)
+                jreps.append(rep)
         gol = nat[n] if n < len(nat) else []
         pred = G.predict_trace(P)
         if lines is None and "[timeout after" in log:
@@ -322,6 +340,14 @@ def runtime_stream(ctx, progs, label):
         dist["distinct_keys"] += int(lines[-1][2:]) if lines and lines[-1].startswith("K ") else 0
         if n < 1:
             ctx.sample(dict(kind="program", output=lines[:25]))
+    bad, failed = P4.coq_eval(ctx, "p4js_" + label, "jcase", "js_mismatches", jcases, 6)
+    for k, err in failed:
+        ctx.violation("model-eval-failed", "Coq evaluation of the emitted-name cases failed", dict(shard=k, log=err), concrete=False)
+    for b in sorted(bad)[:5]:
+        ctx.violation("instance-js-name-model-mismatch", "model js_name / type_string (ids from `collect`) and the names in the compiled program disagree",
+                      dict(jreps[b], coq_case=jcases[b][:4000]), concrete=False)
+    dist["js_model_cases"] = len(jcases)
+    dist["js_model_mismatches"] = len(bad)
     ctx.cov["runtime_" + label] = dist
 
 
@@ -434,8 +460,10 @@ def correspond(ctx):
     n_rt = int((48 if ctx.quick else 420) * scale)
     progs = gen_programs(ctx, n_col, "programs")
     ctx.log("generated %d programs" % len(progs))
-    collector_stream(ctx, progs, "main")
+    col_results = collector_stream(ctx, progs, "main")
     ctx.log("collector stream done")
+    P4.harness_stream(ctx, int((6 if ctx.quick else 80) * scale) or 1)
+    ctx.log("phase-4 harness stream (names, InstanceMap histories, Substitute) done")
     if not ctx.quick:
         big = gen_programs(ctx, int(200 * scale), "big", big=True)
         collector_stream(ctx, big, "big")
@@ -443,9 +471,10 @@ def correspond(ctx):
     rt = progs[:n_rt]
     step = 60
     for i in range(0, len(rt), step):
-        runtime_stream(ctx, rt[i:i + step], "rt%d" % (i // step))
+        runtime_stream(ctx, rt[i:i + step], "rt%d" % (i // step), col_results[i:i + step])
     ctx.log("runtime stream done")
     witness_stream(ctx)
+    P4.shadow_witness(ctx)
     collector_stream(ctx, witness_model_programs(), "witnesses", missing_sig=KF_LOCALARG)
     ctx.log("witnesses done")
 
@@ -457,6 +486,10 @@ def replay(ctx, data):
         print("implementation now:", json.dumps(res, indent=1)[:6000])
         print("recorded ordered:", json.dumps(rp.get("ordered"), indent=1)[:3000])
         print("expected set:", json.dumps(rp.get("expected"), indent=1)[:3000])
+    elif rp.get("kind") == "p4":
+        res = P4.run_harness([dict(src=rp["src"], insts=rp["insts"], ops=rp["ops"], substs=rp["substs"])])[0]
+        print("implementation now:", json.dumps(res, indent=1)[:8000])
+        print("recorded:", json.dumps({k: v for k, v in rp.items() if k not in ("src", "insts", "ops", "substs")}, indent=1)[:4000])
     elif rp.get("kind") in ("program", "witness"):
         d = os.path.join(ctx.work, "replay")
         C.write_go_program(d, rp["files"], module=G.MOD)
@@ -472,16 +505,27 @@ def replay(ctx, data):
     return 0
 
 
-TECHNIQUE = ("Coq proof (invariant of the worklist: least fixpoint, order independence of the set, injectivity of ids, substitution "
-             "composition) + differential correspondence with the real typeparams.Collector and with compiled programs vs native Go")
+TECHNIQUE = ("Coq proof (invariant of the worklist: least fixpoint, order independence of the set, injectivity of ids and of the emitted JS "
+             "references, groundness of substituted instances, refinement of the InstanceMap bucket structure to a finite map for every hash "
+             "function and history) + differential correspondence with the real typeparams.Collector / Instance / InstanceMap / Resolver and "
+             "with compiled programs (emitted instance names, run-time behaviour vs native Go)")
 LEVEL_TEXT = ("Machine-checked theorems over an executable model of Collector.Scan/Finish/propagate, InstanceSet.Add/ID, Resolver "
               "substitution and isGeneric: whenever Finish returns, the collected set is exactly the least set containing the seed "
               "instances and closed under template substitution, for every order of package visits; ids are injective; nest-then-own "
               "substitution equals the simultaneous one. The model is tied to /repo on every run by running the real Collector on "
               "generated multi-package programs (exact discovery lists for a given order, set for the real Finish) and the emitted "
-              "instances are executed under node and compared with native Go and with the trace predicted from the model.")
-LEVEL_NOTE = ("Proof is about the hand-written model of the instance collection; per-instance code generation (decls.go, typeName/instName, "
-              "analysis) is covered only differentially (compiled programs vs native Go). go/types is trusted. Three compiler panics on valid "
+              "instances are executed under node and compared with native Go and with the trace predicted from the model. Phase 4: the JS "
+              "reference objectName[id] identifies the instance (C04_js_ref_generic_injective, no hypothesis), identical instances get the same "
+              "names, every collected instance is ground and its substituted signature has no type parameter (C04_subst_ground, "
+              "C04_collected_signature_ground, nested instances), and InstanceMap behaves as a finite map keyed by instance identity for every "
+              "hash function and every Set/Get/Has/Delete/Len history (C04_instance_map_refines, _keys). Tied by running the real Instance.String/"
+              "TypeString/TypeParamsString, the real InstanceMap on histories with forced typeHash collisions (xor: permuted / moved between "
+              "TNest and TArgs / doubled arguments) and the real Resolver.Substitute, and by reading the emitted `X[id /* args */] = ...` / "
+              "$newType strings out of every compiled program and comparing them with js_name/type_string over the model's `collect`.")
+LEVEL_NOTE = ("Proof is about the hand-written model of the instance collection, naming, substitution and InstanceMap; per-instance code generation "
+              "of bodies (decls.go, functions.go, analysis) is covered only differentially (compiled programs vs native Go). The type STRING of an "
+              "instance is not injective (C04_type_string_injective_refuted: shadowed local types, replayed on the compiler on every run; harmless "
+              "since type identity no longer goes through strings); names of method instances and typeName for anonymous composite types are not modelled. go/types is trusted. Three compiler panics on valid "
               "generic programs are recorded as known findings (qualified explicit instantiation inside generic code; local types of generic "
               "functions as type arguments / inside composite types); ids depend on the package visiting order (C17, proved as "
               "ids_order_dependent_refuted). No axioms.")
